@@ -121,21 +121,26 @@ let () =
       match toks with
       | i :: tl -> run_case (int_of_string i) tl
       | _ -> failwith "lk args");
-  (* get { table } F <filter> [B <szx>]* : the handler's body, then its Block2 reassembly for each szx *)
+  (* get <mode> { table } F <query> { B <szx> }* : the handler's body (one Uri-Query option with
+     these bytes, or none), then its Block2 reassembly for each szx *)
   register "get" (fun toks ->
+      let toks = (match toks with _mode :: tl -> tl | [] -> []) in
       let (tbl, rest) = build_table [] toks in
-      let (filter, rest) =
-        match rest with "F" :: f :: tl -> (filter_of_tok f, tl) | _ -> (None, rest) in
-      match lf_get_wellknown tbl filter with
+      let (opts, rest) =
+        match rest with
+        | "F" :: "~" :: tl -> ([], tl)
+        | "F" :: f :: tl -> ([bytes_of_tok f], tl)
+        | _ -> ([], rest) in
+      match lf_handle_get tbl opts with
       | Lf503 -> "503"
       | LfFault -> "FAULT"
       | Lf205 body ->
           let b = Buffer.create 256 in
           Buffer.add_string b ("205 " ^ full_hex body);
+          let rec nat_of n = if n <= 0 then O else S (nat_of (n - 1)) in
           let rec go = function
             | "B" :: szx :: tl ->
                 let szx = int_of_string szx in
-                let rec nat_of n = if n <= 0 then O else S (nat_of (n - 1)) in
                 (match lf_reassemble (nat_of (List.length body + 1)) body (z_of_int szx) Z0 with
                  | None -> Buffer.add_string b (Printf.sprintf " b%d=NONE" szx)
                  | Some r -> Buffer.add_string b (Printf.sprintf " b%d=%s" szx (full_hex r)));
